@@ -57,4 +57,16 @@ def run(ctx, rep) -> None:
     for t in ttraces:
         if t['stall']:
             rep.violation(f'{t["id"]}: the event loop stalled while a timer was being stopped', payload=t)
+    # the pausing path (peering): daemons that leave only on cancellation, changes sneaking into the workers at the pause;
+    # the runs are validated by Trace_Peering, whose clause `daemon_alive_while_paused` is C09's
+    from vf import peering as P
+    pscs = [sc_ for sc_ in P.crafted() if sc_['id'].startswith('crafted-pause')]
+    with ProcessPoolExecutor(16) as ex:
+        ptraces = list(ex.map(P.run_scenario, pscs))
+    pv = P.judge(ptraces, rep)
+    rep.evaluations += len(ptraces); rep.traces += len(ptraces)
+    for t in ptraces:
+        rep.nontrivial([{k: v for k, v in e.items() if k != 'after'} for e in t['events']])
+        if t['stall'] or pv[t['id']]['verdict'] not in ('ok', 'F26', 'F27'):
+            rep.violation(f'{t["id"]}: {"event loop stalled" if t["stall"] else pv[t["id"]]["verdict"]}', payload=t)
     rep.sample({'scenario': traces[1]['scenario'], 'trace_head': traces[1]['events'][:16]})
